@@ -146,7 +146,8 @@ def _dump(binary, c, seed, i, mask):
     if not binary:
         return []
     r = subprocess.run([binary, 'dump', str(c), str(seed), str(i), str(mask)], stdout=subprocess.PIPE, stderr=subprocess.STDOUT, text=True, errors='replace')
-    return r.stdout.splitlines()
+    # lines starting with '~' (allocator / element / comparator events) are diagnostics, not part of the compared transcript
+    return [l for l in r.stdout.splitlines() if not l.startswith('~')]
 
 
 def _replay(prop, seed, mask, key, b1, b2, bins, what):
